@@ -141,7 +141,9 @@ func TestC10(t *testing.T) {
 	const window = 400 * time.Millisecond
 	for r := 0; r < rounds; r++ {
 		for _, N := range []int{1, 2} {
-			c, err := cluster.Start(cluster.Options{Replicas: 1, Partitions: 7, Manual: true,
+			// small storage tables every second time: the warm keys then live in sealed, older tables
+			T := []int{0, 512}[(r+N)%2]
+			c, err := cluster.Start(cluster.Options{Replicas: 1, Partitions: 7, Manual: true, TableSize: T,
 				DMaps: func(d *config.DMaps) {
 					d.NumEvictionWorkers = 4
 					d.Custom = map[string]config.DMap{"c10idle": {MaxIdleDuration: window}}
@@ -149,7 +151,7 @@ func TestC10(t *testing.T) {
 			if err != nil {
 				t.Fatal(err)
 			}
-			label := fmt.Sprintf("N=%d idle window=%v", N, window)
+			label := fmt.Sprintf("N=%d T=%d idle window=%v", N, T, window)
 			sum.Configs = append(sum.Configs, label)
 			seq++
 			w.Emit(trace.Ev{"t": "reset", "seq": seq, "cfg": label, "maxkeys": 0, "maxinuse": 0, "entry": entry, "window": int(window.Milliseconds())})
@@ -160,13 +162,18 @@ func TestC10(t *testing.T) {
 				last[i] = time.Now()
 				p.Put(ctx, "c10idle", key(i), val(i), PutOpts{})
 			}
-			// keys 0..11 are kept warm (touched every ~150 ms by a read or a write), 12..23 are left alone
+			if T > 0 {
+				for i := 0; i < 80; i++ {
+					p.Put(ctx, "c10idle", fmt.Sprintf("fill-%d", i), fmt.Sprintf("%070d", i), PutOpts{})
+				}
+			}
+			// keys 0..11 are kept warm (0..5 by reads only, 6..11 by a read or a write, every ~150 ms), 12..23 are left alone
 			stop := time.Now().Add(1600 * time.Millisecond)
 			for time.Now().Before(stop) {
 				for i := 0; i < 12; i++ {
 					t0 := time.Now()
 					var rep Reply
-					if rng.Intn(3) == 0 {
+					if i >= 6 && rng.Intn(3) == 0 {
 						rep = p.Put(ctx, "c10idle", key(i), val(i), PutOpts{})
 						rep.Ret = "val"
 					} else {
